@@ -39,9 +39,14 @@ def replay_obj(e, driver):
 def judge(ctx, tr, driver):
     fails, drifts, _ = ctx.validate_trace("Trace_TxPack", tr)
     ev = vlib.read_ndjson(tr)
+    seen = {}
     for f in fails:
         e = ev[f["i"] - 1]
-        ctx.report(classify(e, f["mon"]), replay_obj(e, driver))
+        c = classify(e, f["mon"])
+        k = (c["monitor"], c["class"])
+        seen[k] = seen.get(k, 0) + 1
+        if seen[k] <= 20 or vlib.match_known(ctx.pid, c) is not None:   # at most 20 replay files per class
+            ctx.report(c, replay_obj(e, driver))
     return ev
 
 
